@@ -445,6 +445,23 @@ pub fn replay(args: &[String]) {
 					break;
 				}
 				snap_steps += 1;
+				// second carrier: the in-memory format (no text, floats native)
+				match catch(|| m.mem_roundtrip()) {
+					Ok(Ok(mut r)) => {
+						let mut o = m.boxed_clone();
+						let (a, b) = (catch(|| o.next(&xs[i + 1])), catch(|| r.next(&xs[i + 1])));
+						let same = match (&a, &b) { (Ok(x), Ok(y)) => x.bits() == y.bits(), (Err(_), Err(_)) => true, _ => false };
+						if !same {
+							out.mismatch(&format!("{subject}:snapshot-every-step(mem):value"), json!({"params": params, "step": i, "stream": stream}));
+							break;
+						}
+					}
+					other => {
+						out.mismatch(&format!("{subject}:snapshot-every-step(mem):err"), json!({"params": params, "step": i, "stream": stream,
+							"msg": match other { Ok(Err(e)) => e, Err(e) => format!("panic: {e}"), _ => String::new() }}));
+						break;
+					}
+				}
 				match restore(subject, &m.snapshot()) {
 					Ok(Ok(mut r)) => {
 						let mut o = m.boxed_clone();
@@ -461,6 +478,40 @@ pub fn replay(args: &[String]) {
 						break;
 					}
 				}
+			}
+		}
+	}
+	// candles without a volume (what the 4-tuple conversion produces: volume = NaN) inside windowed state: the text carrier
+	// cannot hold a NaN, the in-memory one can -- a restored Window<Candle> / Past<Candle> returns them bit for bit
+	if snap_only {
+		use yata::core::{Candle, Window};
+		use yata::methods::Past;
+		let mut g = Gen::new(seed * 31 + 7, true);
+		let bitsc = |c: &Candle| [c.open, c.high, c.low, c.close, c.volume].map(|x| (x as f64).to_bits());
+		let mk = |g: &mut Gen, i: usize| { let mut c = g.candle(); if i % 2 == 0 { c.volume = ValueType::NAN; } c };
+		let first = mk(&mut g, 0);
+		let mut w: Window<Candle> = Window::new(5, first);
+		let mut p: Past<Candle> = Past::new(3, &first).unwrap();
+		for i in 1..20 {
+			let c = mk(&mut g, i);
+			w.push(c);
+			let _ = Method::next(&mut p, &c);
+			let w2: Result<Window<Candle>, _> = crate::memfmt::from_value(crate::memfmt::to_value(&w));
+			let p2: Result<Past<Candle>, _> = crate::memfmt::from_value(crate::memfmt::to_value(&p));
+			match (w2, p2) {
+				(Ok(w2), Ok(mut p2)) => {
+					let a: Vec<_> = w.iter().map(bitsc).collect();
+					let b: Vec<_> = w2.iter().map(bitsc).collect();
+					if a != b {
+						out.mismatch("Window<Candle>:snapshot(mem):value", json!({"step": i}));
+					}
+					let nx = mk(&mut g, i + 100);
+					let mut pc = p.clone();
+					if bitsc(&Method::next(&mut pc, &nx)) != bitsc(&Method::next(&mut p2, &nx)) {
+						out.mismatch("Past<Candle>:snapshot(mem):value", json!({"step": i}));
+					}
+				}
+				_ => out.mismatch("Window<Candle>:snapshot(mem):err", json!({"step": i})),
 			}
 		}
 	}
